@@ -213,35 +213,74 @@ Definition read_archive (s : list N) : ra_res := read_entries (S (length s)) s.
 Definition clamp_mtime (t : Z) : Z :=
   if (t <? 0)%Z then 0%Z else if (4294967295 <? t)%Z then 4294967295%Z else t.
 
+(* ---------- the order in which the image keeps the xattrs of an inode ----------
+   lib/sqfs/src/xattr/xattr_writer_record.c: every key string gets an index in a
+   string table at its first appearance (sqfs_xattr_writer_add_kv, called by
+   tar2sqfs' copy_xattr for the decoded list front to back, entry after entry in
+   archive order); sqfs_xattr_writer_end sorts the pairs of the inode by
+   (key index, value index).  For pairwise different keys (the writer merges
+   pairs with equal keys; an image never holds two) that is: the keys some
+   earlier entry already used first, in table order, then the new keys in list
+   order.  [tbl] is the string table. *)
+Definition key_mem (tbl : list (list N)) (k : list N) : bool := existsb (list_eqb k) tbl.
+
+Fixpoint key_pos (tbl : list (list N)) (k : list N) : nat :=
+  match tbl with
+  | [] => O
+  | x :: r => if list_eqb x k then O else S (key_pos r k)
+  end.
+
+Fixpoint xins (tbl : list (list N)) (x : xattr) (l : list xattr) : list xattr :=
+  match l with
+  | [] => [x]
+  | y :: r => if Nat.leb (key_pos tbl (fst x)) (key_pos tbl (fst y)) then x :: l else y :: xins tbl x r
+  end.
+
+Definition xsort (tbl : list (list N)) (l : list xattr) : list xattr := fold_right (xins tbl) [] l.
+
+Definition store_xattrs (tbl : list (list N)) (xs : list xattr) : list (list N) * list xattr :=
+  let old := filter (fun x => key_mem tbl (fst x)) xs in
+  let nw := filter (fun x => negb (key_mem tbl (fst x))) xs in
+  (tbl ++ map fst nw, xsort tbl old ++ nw).
+
 (* One entry on its way tar iterator -> tar2sqfs -> image -> sqfs2tar's
    iterator, i.e. what sqfs2tar's write_entry is handed for an entry the tar
    iterator delivered: the time stamp is clamped to 32 bit (process_tarball),
    a directory gets its trailing '/' back (bin/sqfs2tar/src/iterator.c), link
-   target, file contents and the xattr list IN THE ORDER OF THE DECODED LIST
-   (copy_xattr walks the list front to back, the image keeps that order) are
-   kept.  The tree building in between (fstree, image codec) is not modelled:
-   that this is what the tools do is checked by the tool-level oracle. *)
+   target and file contents are kept, the xattrs are [xs] (the order the
+   xattr writer gives them, see reimage_all).  The tree building in between
+   (fstree, image codec) is not modelled: that this is what the tools do is
+   checked by the tool-level oracle. *)
 Definition is_dir (m : N) : bool := ftype m =? S_IFDIR.
 
-Definition reimage (t : tentry) : tentry :=
+Definition reimage (t : tentry) (xs : list xattr) : tentry :=
   let e := te_e t in
   mkte (mkentry (if is_dir (e_mode e) then e_name e ++ [47] else e_name e)
                 (e_mode e) (e_uid e) (e_gid e) (e_size e) (clamp_mtime (e_mtime e))
                 (e_rdev e) (e_hardlink e))
-       (te_target t) (te_xattr t) (te_data t).
+       (te_target t) xs (te_data t).
+
+(* tar2sqfs over the entries the tar iterator delivers, in archive order *)
+Fixpoint reimage_all (tbl : list (list N)) (vs : list tentry) : list tentry :=
+  match vs with
+  | [] => []
+  | v :: r =>
+    let st := store_xattrs tbl (te_xattr v) in
+    reimage v (snd st) :: reimage_all (fst st) r
+  end.
 
 (* one conversion round at archive level: sqfs2tar writes the entries of an
    image, tar2sqfs reads the archive into a new image *)
 Definition convert (es : list tentry) : ra_res :=
   match read_archive (write_archive es) with
-  | RA_Ok vs => RA_Ok (map reimage vs)
+  | RA_Ok vs => RA_Ok (reimage_all [] vs)
   | x => x
   end.
 
 (* the same with the unrepaired sqfs2tar *)
 Definition convert_old (es : list tentry) : ra_res :=
   match read_archive (write_archive_old es) with
-  | RA_Ok vs => RA_Ok (map reimage vs)
+  | RA_Ok vs => RA_Ok (reimage_all [] vs)
   | x => x
   end.
 
